@@ -26,7 +26,19 @@ fn check(ctx: &Ctx, m: &ModelGame, label: &str, counting: bool) -> Result<(), Fa
 		Fail::new(format!("op=field {}", key), format!("v{}.{}: {}", m.version.0, m.version.1, e))
 			.with_file("slp", &bytes)
 			.with_detail(m.summary())
-	})
+	})?;
+	// the same fields as exposed through the per-frame record view (columns == model was just established,
+	// so record view == columns means record view == spec-offset values)
+	let view = crate::access::view_immutable(&g.frames);
+	let version = g.start.slippi.version;
+	for i in 0..g.frames.len() {
+		let row = rt::guard(|| Ok::<_, String>(g.frames.transpose_one(i, version))).expect_ok("transpose_one").map_err(|f| f.with_file("slp", &bytes))?;
+		super::c13::row_matches(&row, &view, i, version).map_err(|e| {
+			let key: String = e.split(" index ").next().unwrap_or("").chars().take(70).collect();
+			Fail::new(format!("op=field rowview {}", key), format!("v{}.{} frame index {}: {}", m.version.0, m.version.1, i, e)).with_file("slp", &bytes).with_detail(m.summary())
+		})?;
+	}
+	Ok(())
 }
 
 const PATS: [Pattern; 4] = [Pattern::Distinct, Pattern::Random, Pattern::Special, Pattern::Ones];
